@@ -1,0 +1,37 @@
+//go:build verif
+
+// Contracts for package fingerprint, checked by /verif/govc (comment-only file).
+package fingerprint
+
+//@ func vlogf
+//@   trusted
+//@   assigns nothing
+
+//@ -- fingerprint functions are pure functions of the per-connection record (assumption for user-supplied ones)
+//@ func field FingerprintHeaderInjector.FingerprintFunc
+//@   trusted
+//@   pure
+
+//@ func (*FingerprintHeaderInjector).GetHeaderName :: i -> name
+//@   props C05
+//@   requires i != nil
+//@   assigns nothing
+//@   ensures name == i.HeaderName
+
+//@ func (*FingerprintHeaderInjector).GetHeaderValue :: i, req -> fp, err
+//@   props C06,C01
+//@   requires i != nil && req != nil
+//@   assigns nothing
+//@   ensures [C06:no-metadata-no-value] !hasMeta(req.reqCtx) ==> err != nil && fp == ""
+//@   ensures [C06:value-from-own-connection-record-only] hasMeta(req.reqCtx) ==> fp == fcall("FingerprintFunc", i.FingerprintFunc, ctxMeta(req.reqCtx))
+
+//@ func NewFingerprintHeaderInjector :: headerName, fingerprintFunc -> i
+//@   props C01
+//@   ensures [C01:injector-wiring] i != nil && fresh(i) && i.HeaderName == headerName && i.FingerprintFunc == fingerprintFunc
+
+//@ func (*HTTP2FingerprintParam).HTTP2Fingerprint :: p, data -> fp, err
+//@   props C03
+//@   requires p != nil && data != nil
+//@   assigns nothing
+//@   ensures [C03:h2-only] data.ConnectionState.NegotiatedProtocol == "h2" ==> err == nil && fp == h2fp(data.HTTP2Frames, p.MaxPriorityFrames)
+//@   ensures [C03:no-fingerprint-without-h2] data.ConnectionState.NegotiatedProtocol != "h2" ==> err == nil && fp == ""
